@@ -154,8 +154,14 @@ func genCacheCase(r *wire.Rng, c int, out *wire.Out) {
 			} else {
 				out.Line("clearall", strconv.FormatUint(t, 10))
 			}
-		case x < 96:
+		case x < 95:
 			out.Line("flush")
+		case x < 96:
+			if r.Chance(1, 2) {
+				out.Line("snapshot")
+			} else {
+				out.Line("keys", pickType())
+			}
 		case x < 98:
 			out.Line("maxsize", strconv.Itoa(wire.Pick(r, []int{1, 2, 3, 4, 5, 0, -3})))
 		default: // malformed
